@@ -233,8 +233,9 @@ def fn_length(ctx, lib, nm, b):
 
 def fn_reverse(ctx, lib, nm, b):
     o, oks, _ = ok_terms(b, lib)
-    st = Agg(V + "::String", Each(Call("std::iter::Iterator::collect", Each(("rev", ("iter", view("string", arg(0))))))))
-    arr = Agg(V + "::Array", Each(view("array", arg(0))))
+    # the payloads through the accessor or through a match on the value itself
+    st = Agg(V + "::String", Each(Call("std::iter::Iterator::collect", Each(("rev", ("iter", Or_(view("string", arg(0)), ("field", arg(0), "String.0"))))))))
+    arr = Agg(V + "::Array", Each(Or_(view("array", arg(0)), ("field", arg(0), "Array.0"))))
     ok = len(oks) == 2 and sum(ms(t, st) for _, t in oks) == 1 and sum(ms(t, arr) for _, t in oks) == 1
     rv = [t for _, t in b.calls() if re.search(r"slice::<impl \[T\]>::reverse$", t["callee"])]
     C(ctx, nm, "value", ok and len(rv) == 1, "string: chars().rev() collected (code points reversed); array: a copy of the array reversed in place", b)
